@@ -51,6 +51,18 @@ crate::harness! {
         match r {
             Ok(v) => {
                 assert!(consumed >= 1 && consumed <= 10);
+                // the value is exactly the little-endian base-128 number that was read, and it fits in 64 bits
+                // (an over-long or overflowing encoding must be an error, not a truncated value)
+                let mut exact: u128 = 0;
+                let mut i = 0;
+                while i < 10 {
+                    if i < consumed {
+                        exact += ((bytes[i] & 0x7f) as u128) << (7 * i);
+                    }
+                    i += 1;
+                }
+                assert!(exact == v as u128, "C16: varint reader accepted an encoding that does not fit in 64 bits (or decoded it wrongly)");
+                assert!(bytes[consumed - 1] & 0x80 == 0, "C16: varint reader stopped on a continuation byte");
                 // re-encoding never needs more bytes than were consumed (encoder is minimal)
                 assert!(space_needed(v) <= consumed, "C16: decoded value needs more bytes than were read");
                 kani::cover!(consumed == 10, "ten-byte varint accepted");
